@@ -402,6 +402,10 @@ def run(ctx):
         if done == 1 and ctx.index == 0:
             obs.sample({'file': data[:400], 'paddings': '0..192',
                         'block_sizes': '1..192, 1000, 1000000'})
+    # read-ahead state belongs to one reader: several readers at work at
+    # the same time (threads under a seeded schedule, interleaved generators)
+    common.reader_concurrency_pass(
+        ctx, lambda r: gen_file(r)[0], ctx.share(ctx.pick(100, 2500)))
     if obs.counters.get('block_size_handle_missing'):
         # no knob = the block size is not configurable in this tree: the
         # alignment sweep (every padding) is then all that can be observed
@@ -413,6 +417,8 @@ def run(ctx):
 
 def replay(case, obs):
     from mon.oracle import scanner
+    if 'concurrent' in case or 'interleaved' in case:
+        return common.replay_reader_concurrency(case, obs)
     data = case['file']
     obs.case(None, nontrivial=False)
     base, exc, fails = read_with_positions(data, None, obs)
